@@ -681,24 +681,6 @@ Fixpoint print (cfg : config) (e : expr) : list token :=
       at_most k s (print cfg s) ++ TOp o :: at_most k p (print cfg p)
   end.
 
-(* fully parenthesised printer (every operand of an operator is wrapped) *)
-Fixpoint print_paren (e : expr) : list token :=
-  match e with
-  | EKw k => [TWord k]
-  | ELit l => [lit_tok l]
-  | ERange k lo hi => [TWord k; lit_tok lo; TWord "to"; lit_tok hi]
-  | EInList k ls => TWord k :: map lit_tok ls
-  | EUn o a => TOp o :: paren (print_paren a)
-  | EBin e0 rest =>
-      paren (print_paren e0) ++
-      (fix go (l : list (string * expr)) : list token :=
-         match l with
-         | [] => []
-         | (o, a) :: l' => TOp o :: paren (print_paren a) ++ go l'
-         end) rest
-  | ERx o s p => paren (print_paren s) ++ TOp o :: paren (print_paren p)
-  end.
-
 (* rendering tokens as a string: one blank between tokens *)
 Definition render_tok (t : token) : string :=
   match t with
